@@ -31,6 +31,7 @@ import (
 	"os"
 	"runtime"
 	"sort"
+	"strconv"
 	"sync"
 	"testing"
 	"time"
@@ -481,8 +482,12 @@ func TestVerifProducer(t *testing.T) {
 	logger.Logger = &zl
 
 	h := &vHarness{keys: makeKeys(in.Keys), lists: map[int][]int64{}, seen: map[string]int{}}
-	for _, l := range in.Lists {
-		h.lists[len(l)] = l
+	for id, l := range in.Lists { // keyed by the model's list identifier (length, +1000 for same-size variants)
+		n, err := strconv.Atoi(id)
+		if err != nil {
+			t.Fatal(err)
+		}
+		h.lists[n] = l
 	}
 
 	// group the transitions by interval and by source state
@@ -784,11 +789,11 @@ func (h *vHarness) produceWallClock(res *verifkit.Result, iv int64, reps int) {
 			cs := vCase{Iv: iv, List: l, Lib: 0, TimeMap: "wall-clock", ShiftMs: now.UnixNano() / nsPerMs}
 			res.Count(fmt.Sprintf("produce:%d:%d:%d", iv, n, rep))
 			if !ok {
-				res.Violate(map[string]interface{}{"kind": "no-owner-now"}, cs, "no producer is entitled at the wall-clock instant %v (index %d of %d)", now, idx, n)
+				res.Violate(map[string]interface{}{"kind": "no-owner-now"}, cs, "no producer is entitled at the wall-clock instant %v (index %d of %d)", now, idx, len(l))
 				continue
 			}
 			// the model's owner of this instant
-			want := specNext(now.UnixNano()/nsPerMs, iv) % int64(n)
+			want := specNext(now.UnixNano()/nsPerMs, iv) % int64(len(l))
 			var key *vKey
 			for _, k := range l {
 				if h.keys[k].id == id {
